@@ -191,6 +191,9 @@ func TestVerifC15(t *testing.T) {
 			check(seq, "stack/name")
 			if len(seq) <= 2 {
 				check(seq, "a.b/c.d")
+				// names that look like frame lines: a ditto mark, and an import path equal to a frame's
+				check(seq, "\".x")
+				check(seq, "golang.org/x/telemetry/internal/counter.x")
 			}
 		}
 		if len(seq) == maxLen {
